@@ -224,6 +224,8 @@ def cmd_text(p, c):
         return "(check %s)" % (c["text"] if "text" in c else facts_text(p, c["facts"]))
     if k == "extract":
         return "(extract %s)" % gterm_text(p, c["t"]) if c["n"] == 0 else "(extract %s %d)" % (gterm_text(p, c["t"]), c["n"])
+    if k == "size":
+        return "(print-size %s)" % p.funcs[c["f"] - 1]["name"]
     if k == "push":
         return "(push)"
     if k == "pop":
@@ -866,8 +868,10 @@ class Gen:
                     st["stack"].append((set(st["declf"]), set(st["active"]), list(st["late"]), list(st["latef"])))
             else:
                 emit(dict(k="run", s=dict(k="run", rs=r.choice([q["name"] for q in p.rsets]), until=[])))
+            if pf.get("sizes", 0) > 0 and r.random() < pf["sizes"]:
+                emit(dict(k="size", f=r.choice(sorted(st["declf"]))))
             if pf.get("extract", 0) > 0 and r.random() < pf["extract"]:
-                emit(dict(k="extract", t=gterm(st, "E", pf["depth"]), n=r.choice([0, 0, 0, 2, 3])))
+                emit(dict(k="extract", t=gterm(st, "E", pf["depth"]), n=r.choice(pf.get("variants", [0, 0, 0, 2, 3]))))
             if r.random() < pf["checks"]:
                 if r.random() < 0.7:
                     c = check_eq(p, gterm(st, "E", pf["depth"]), gterm(st, "E", pf["depth"]))
